@@ -236,6 +236,11 @@ func providerEffectScan(c *Ctx) *types.Named {
 						if !sharedBase(kind, path) {
 							continue
 						}
+						if i == 0 && x.Common().IsInvoke() && ct == nil && pluginField(a) {
+							// a method of an object the application plugged into a provider field (an observer, a store): what
+							// that method does to its own receiver is the application's code; the other arguments are examined
+							continue
+						}
 						writes := false
 						if ct == nil {
 							c.undecided("C17-R1", fname, "unmodelled callee "+shortName(name)+" receives provider-reachable state", c.P.InstrPos(x), "external callee outside the contract table may mutate "+describeBase(kind, path))
@@ -828,6 +833,14 @@ func providerUnmodifiedPaths(c *Ctx, rule string, spT *types.Named) {
 							if is, sealed := c.P.moduleIface(a.Type()); i == 0 && is && sealed {
 								continue
 							}
+							if l, isL := a.(*LoadV); i == 0 && isL && strings.HasPrefix(e.Callee, "(") {
+								// receiver is the interface value stored in a provider field: the application's plug-in
+								if fa, isFA := l.Addr.(*FieldAddrV); isFA && isIfaceType(l.Type()) {
+									if _, isP := fa.X.(*ParamV); isP {
+										continue
+									}
+								}
+							}
 							report(e, "unmodelled callee "+shortName(e.Callee)+" receives "+ap(a), "an external callee outside the contract table receives memory derived from the provider's configuration ("+ap(a)+") and may modify it")
 						case ct.TreeMutator && i == 0:
 							report(e, "tree mutation "+shortName(e.Callee)+" on "+ap(a), "a public operation restructures a tree reachable from the provider")
@@ -938,4 +951,29 @@ func containsInt(xs []int, k int) bool {
 		}
 	}
 	return false
+}
+
+// pluginField: the value is an interface loaded directly from a field of the provider parameter (sp.Observer).
+func pluginField(v ssa.Value) bool {
+	if !isIfaceType(v.Type()) {
+		return false
+	}
+	ld, ok := v.(*ssa.UnOp)
+	if !ok || ld.Op != token.MUL {
+		return false
+	}
+	fa, ok := ld.X.(*ssa.FieldAddr)
+	if !ok {
+		return false
+	}
+	p, ok := fa.X.(*ssa.Parameter)
+	return ok && strings.HasSuffix(typeStr(p.Type()), "SAMLServiceProvider")
+}
+
+func isIfaceType(t types.Type) bool {
+	if t == nil {
+		return false
+	}
+	_, ok := t.Underlying().(*types.Interface)
+	return ok
 }
